@@ -62,7 +62,8 @@ Print Assumptions C01_roundtrip_exact.
                         is refused, so acceptance implies it (C01_accepted_one_run_per_chromosome);
    - Nlen bs < 2^64   : file offsets are u64.
    [infl] (the decompressor) is arbitrary: the modelled writer emits uncompressed files
-   (uncompress_buf_size = 0), for which the reader never calls it. *)
+   (uncompress_buf_size = 0), for which the reader never calls it.  Compressed files: the section
+   COMPRESSED FILES further down (C01_*_compressed), for every round-tripping compressor. *)
 From BT Require Import Base.LE Proofs.RTreeCodec Proofs.FileRegions Proofs.BigWigFile Proofs.BigWigFileChroms
   Proofs.BigWigFileData Proofs.BigWigFileRoundTrip Proofs.BigWigFileThms.
 
@@ -267,3 +268,193 @@ Example C01_example_run :
              | _ => False end
   | _ => False end.
 Proof. vm_compute. repeat split; reflexivity. Qed.
+
+(* ------------------------------------------------------------------------------------------
+   COMPRESSED FILES ("for every combination of compression, ...").
+   Model/BigWigWriteZ.v (owned by C09) is the writer model with the block compressor as a parameter:
+   bw_write_z cmp / bw_write_multipass_z cmp pass every data and zoom section through [cmp] when
+   options.compress is set, write uncompress_buf_size as bbiwrite.rs computes it, lay everything
+   behind the first block out at the offsets the COMPRESSED sizes give, and (two passes) select the
+   automatic zoom levels from the compressed data size, as write_multipass does.  With compression
+   off they ARE bw_write / bw_write_multipass (C09_model_uncompressed).
+
+   The theorems below are the whole-file theorems above for those bytes, for EVERY compressor [cmp]
+   and EVERY decompressor [infl] such that   o_compress o = true -> forall b, infl (cmp b) = b
+   (nothing else is asked of the pair: no size bound, no injectivity beyond the round trip, compressed
+   blocks may even be empty; when options.compress is off the hypothesis is void and the statements
+   are the uncompressed ones).  Same hypotheses on options / input / file length as above.
+   Proofs: Proofs/BigWigFileZ.v (layout from C09's assemble_z_inv; header, chromosome tree, C05's
+   search_bytes_eq_scan on the index over the compressed blocks, block read through [infl], section
+   codec), Proofs/BigWigFileZInput.v.
+
+   What this says about the code: libdeflater is not modelled; "compress_to_vec then
+   decompress_to_vec_bounded is the identity" is the hypothesis on (cmp, infl).  The correspondence
+   check compares real compressed files through the real reader (answers = model answers = oracle);
+   block-level inflation of real files by an independent zlib is C09's check. *)
+From BT Require Import Model.BigWigWriteZ Proofs.BigWigFileZ Proofs.BigWigFileZInput.
+
+(* the compressed file opens; the buffer size the reader will allocate is 0 exactly when compression
+   is off and fits the u32 header field; the chromosome table is the one of C01_chrom_table *)
+Theorem C01_read_info_compressed : forall cmp fp o sizes inp bs,
+  opts_ok o -> input_ok sizes inp -> Nlen bs < U64 ->
+  bw_write_z cmp fp o sizes inp = Ok bs \/ bw_write_multipass_z cmp fp o sizes inp = Ok bs ->
+  exists i, read_info bs = Ok i
+    /\ h_big (i_hdr i) = false /\ h_bigwig (i_hdr i) = true /\ h_version (i_hdr i) = 4
+    /\ (h_ubuf (i_hdr i) = 0 <-> o_compress o = false) /\ h_ubuf (i_hdr i) < U32
+    /\ h_full_data_off (i_hdr i) = PRE_DATA - 8 /\ h_summary_off (i_hdr i) = PRE_DATA - 48
+    /\ h_zoom_levels (i_hdr i) = Nlen (i_zooms i) /\ Nlen (i_zooms i) <= 10
+    /\ i_chroms i = map (fun ci => {| ci_name := fst ci; ci_id := snd ci;
+                                      ci_len := match lookup (fst ci) sizes with Some l => l | None => 0 end |})
+                        (number 0 (map fst (runs inp))).
+Proof. intros cmp fp o sizes inp bs Ho Hi Hs H. exact (z_read_info cmp fp o sizes inp bs Ho Hi Hs H). Qed.
+Print Assumptions C01_read_info_compressed.
+
+(* the uncompress_buf_size the READER sees is >= the uncompressed size of every block of the file:
+   every data section and every section of every zoom level computed (single pass: including levels
+   write_zooms then skips; two passes: the levels selected from the compressed data size), so
+   inflating any block into a buffer of that size cannot overflow (cf. C09_buf_size, which states it
+   for the header bytes) *)
+Theorem C01_buf_size_compressed : forall cmp fp o sizes inp bs,
+  bw_write_z cmp fp o sizes inp = Ok bs -> opts_ok o -> input_ok sizes inp -> Nlen bs < U64 ->
+  exists ids outs sum data zooms,
+    bw_collect fp o sizes inp = Ok (ids, outs, sum, data)
+    /\ bw_zoom_levels fp o outs (zoom_sizes_single o) = Ok zooms
+    /\ forall i, read_info bs = Ok i -> o_compress o = true ->
+         Forall (fun s => Nlen (sd_bytes s) <= h_ubuf (i_hdr i)) (data ++ flat_map zl_secs zooms).
+Proof. exact z_buf_covers_single. Qed.
+Print Assumptions C01_buf_size_compressed.
+
+Theorem C01_buf_size_compressed_multipass : forall cmp fp o sizes inp bs,
+  bw_write_multipass_z cmp fp o sizes inp = Ok bs -> opts_ok o -> input_ok sizes inp -> Nlen bs < U64 ->
+  exists ids outs sum data zooms,
+    bw_collect fp o sizes inp = Ok (ids, outs, sum, data)
+    /\ bw_zoom_levels fp o outs (zoom_sizes_two_pass o sum (total_zoom_counts outs)
+                                   (Nlen (data_bytes (map (zsec cmp (o_compress o)) data)))) = Ok zooms
+    /\ forall i, read_info bs = Ok i -> o_compress o = true ->
+         Forall (fun s => Nlen (sd_bytes s) <= h_ubuf (i_hdr i)) (data ++ flat_map zl_secs zooms).
+Proof. exact z_buf_covers_multipass. Qed.
+Print Assumptions C01_buf_size_compressed_multipass.
+
+Theorem C01_chrom_table_compressed : forall cmp fp o sizes inp bs i,
+  opts_ok o -> input_ok sizes inp -> Nlen bs < U64 ->
+  bw_write_z cmp fp o sizes inp = Ok bs \/ bw_write_multipass_z cmp fp o sizes inp = Ok bs ->
+  read_info bs = Ok i ->
+  i_chroms i = map (fun ci => {| ci_name := fst ci; ci_id := snd ci;
+                                 ci_len := match lookup (fst ci) sizes with Some l => l | None => 0 end |})
+                   (number 0 (map fst (runs inp))).
+Proof. intros cmp fp o sizes inp bs i Ho Hi Hs H. exact (z_chroms cmp fp o sizes inp bs Ho Hi Hs H i). Qed.
+Print Assumptions C01_chrom_table_compressed.
+
+Theorem C01_accepted_runs_compressed : forall cmp fp o sizes inp bs,
+  opts_ok o -> input_ok sizes inp -> Nlen bs < U64 ->
+  bw_write_z cmp fp o sizes inp = Ok bs \/ bw_write_multipass_z cmp fp o sizes inp = Ok bs ->
+  forall c vs, In (c, vs) (runs inp) -> exists len, lookup c sizes = Some len /\ wf_vals len vs /\ vs <> [].
+Proof. intros cmp fp o sizes inp bs Ho Hi Hs H. exact (z_accepted cmp fp o sizes inp bs Ho Hi Hs H). Qed.
+Print Assumptions C01_accepted_runs_compressed.
+
+(* any range query on the compressed bytes: header -> chromosome tree -> index search on bytes ->
+   block read -> inflate -> section decode -> clip = the clipped overlapping input values *)
+Theorem C01_query_compressed : forall cmp infl fp o sizes inp bs i c vs s e,
+  (o_compress o = true -> forall b, infl (cmp b) = b) ->
+  opts_ok o -> input_ok sizes inp -> Nlen bs < U64 ->
+  bw_write_z cmp fp o sizes inp = Ok bs \/ bw_write_multipass_z cmp fp o sizes inp = Ok bs ->
+  read_info bs = Ok i -> In (c, vs) (runs inp) ->
+  bw_interval infl bs i c s e = Ok (clip_filter s e vs).
+Proof.
+  intros cmp infl fp o sizes inp bs i c vs s e Hrt Ho Hi Hs H.
+  exact (z_query cmp fp o sizes inp bs Ho Hi Hs H infl Hrt i c vs s e).
+Qed.
+Print Assumptions C01_query_compressed.
+
+(* THE ROUND TRIP on compressed files, both writers *)
+Theorem C01_roundtrip_compressed : forall cmp infl fp o sizes inp bs i c vs len,
+  (o_compress o = true -> forall b, infl (cmp b) = b) ->
+  opts_ok o -> input_ok sizes inp -> Nlen bs < U64 ->
+  bw_write_z cmp fp o sizes inp = Ok bs \/ bw_write_multipass_z cmp fp o sizes inp = Ok bs ->
+  read_info bs = Ok i -> In (c, vs) (runs inp) -> lookup c sizes = Some len ->
+  bw_interval infl bs i c 0 len = Ok (filter (fun v => negb (boundary_zero len v)) vs).
+Proof.
+  intros cmp infl fp o sizes inp bs i c vs len Hrt Ho Hi Hs H.
+  exact (z_full_span cmp fp o sizes inp bs Ho Hi Hs H infl Hrt i c vs len).
+Qed.
+Print Assumptions C01_roundtrip_compressed.
+
+Theorem C01_roundtrip_file_exact_compressed : forall cmp infl fp o sizes inp bs i c vs len,
+  (o_compress o = true -> forall b, infl (cmp b) = b) ->
+  opts_ok o -> input_ok sizes inp -> Nlen bs < U64 ->
+  bw_write_z cmp fp o sizes inp = Ok bs \/ bw_write_multipass_z cmp fp o sizes inp = Ok bs ->
+  read_info bs = Ok i -> In (c, vs) (runs inp) -> lookup c sizes = Some len ->
+  Forall (fun v => boundary_zero len v = false) vs -> bw_interval infl bs i c 0 len = Ok vs.
+Proof.
+  intros cmp infl fp o sizes inp bs i c vs len Hrt Ho Hi Hs H.
+  exact (z_full_span_exact cmp fp o sizes inp bs Ho Hi Hs H infl Hrt i c vs len).
+Qed.
+Print Assumptions C01_roundtrip_file_exact_compressed.
+
+(* ... stated on the input itself *)
+Theorem C01_chrom_table_compressed_on_input : forall cmp fp o sizes inp bs,
+  opts_ok o -> input_ok sizes inp -> Nlen bs < U64 ->
+  bw_write_z cmp fp o sizes inp = Ok bs \/ bw_write_multipass_z cmp fp o sizes inp = Ok bs ->
+  forall i, read_info bs = Ok i ->
+  i_chroms i = map (fun ci => {| ci_name := fst ci; ci_id := snd ci;
+                                 ci_len := match lookup (fst ci) sizes with Some l => l | None => 0 end |})
+                   (number 0 (first_app (map fst inp))).
+Proof. exact z_on_input_chroms. Qed.
+Print Assumptions C01_chrom_table_compressed_on_input.
+
+Theorem C01_query_compressed_on_input : forall cmp infl fp o sizes inp bs,
+  (o_compress o = true -> forall b, infl (cmp b) = b) ->
+  opts_ok o -> input_ok sizes inp -> Nlen bs < U64 ->
+  bw_write_z cmp fp o sizes inp = Ok bs \/ bw_write_multipass_z cmp fp o sizes inp = Ok bs ->
+  forall i c s e, read_info bs = Ok i -> In c (map fst inp) ->
+  bw_interval infl bs i c s e = Ok (clip_filter s e (vals_of inp c)).
+Proof. exact z_on_input_query. Qed.
+Print Assumptions C01_query_compressed_on_input.
+
+Theorem C01_roundtrip_compressed_on_input : forall cmp infl fp o sizes inp bs,
+  (o_compress o = true -> forall b, infl (cmp b) = b) ->
+  opts_ok o -> input_ok sizes inp -> Nlen bs < U64 ->
+  bw_write_z cmp fp o sizes inp = Ok bs \/ bw_write_multipass_z cmp fp o sizes inp = Ok bs ->
+  forall i c len, read_info bs = Ok i -> In c (map fst inp) -> lookup c sizes = Some len ->
+  bw_interval infl bs i c 0 len = Ok (filter (fun v => negb (boundary_zero len v)) (vals_of inp c)).
+Proof. exact z_on_input_roundtrip. Qed.
+Print Assumptions C01_roundtrip_compressed_on_input.
+
+(* Non-vacuity: the example input above written COMPRESSED (options.compress on, two manual zoom
+   levels so that zoom sections exist) with a toy compressor (two marker bytes + the block reversed;
+   toy_infl inverts it: toy_rt) meets every hypothesis with both writers; the compressed file is not
+   the uncompressed one (every block grows by 2 bytes, so all later offsets move); the header's buffer
+   size is 64 (the largest uncompressed block, a zoom section of two records); and the reader run on
+   the computed bytes, inflating with toy_infl, returns the values (computed, not derived) - while
+   with the identity as decompressor it does not. *)
+Definition exz_opts : opts :=
+  {| o_compress := true; o_ips := 2; o_bs := 2; o_izoom := 10; o_maxzooms := 10; o_manual := Some [5; 40]; o_sort_all := true |}.
+Example C01_compressed_example_hyps :
+  (forall b, toy_infl (toy_cmp b) = b)
+  /\ opts_ok exz_opts /\ input_ok ex_sizes ex_inp
+  /\ (exists bs, bw_write_z toy_cmp ieee exz_opts ex_sizes ex_inp = Ok bs /\ Nlen bs < U64
+                 /\ bw_write ieee exz_opts ex_sizes ex_inp <> Ok bs)
+  /\ (exists bs, bw_write_multipass_z toy_cmp ieee exz_opts ex_sizes ex_inp = Ok bs /\ Nlen bs < U64).
+Proof.
+  split; [exact toy_rt|]. split; [unfold opts_ok; cbn; lia|].
+  split; [exact (proj1 (proj2 C01_example_hyps))|].
+  split; eexists; (split; [vm_compute; reflexivity|]); [split; [reflexivity|]|reflexivity].
+  vm_compute. intros E. discriminate E.
+Qed.
+Example C01_compressed_example_run :
+  match bw_write_z toy_cmp ieee exz_opts ex_sizes ex_inp, bw_write_multipass_z toy_cmp ieee exz_opts ex_sizes ex_inp with
+  | Ok bs, Ok bs2 =>
+      match read_info bs, read_info bs2 with
+      | Ok i, Ok i2 =>
+          map (fun c => (ci_name c, ci_id c, ci_len c)) (i_chroms i) = [([97], 0, 100); ([98], 1, 50)]
+          /\ h_ubuf (i_hdr i) = 64 /\ Nlen (i_zooms i) = 2
+          /\ bw_interval toy_infl bs i [97] 0 100 = Ok ex_a
+          /\ bw_interval toy_infl bs i [98] 0 50 = Ok ex_b
+          /\ bw_interval toy_infl bs i [97] 15 40 = Ok [{| v_start := 15; v_end := 20; v_bits := 3212836864 |};
+                                                       {| v_start := 30; v_end := 40; v_bits := 2139095039 |}]
+          /\ bw_interval (fun x => x) bs i [97] 0 100 <> Ok ex_a
+          /\ bw_interval toy_infl bs2 i2 [97] 0 100 = Ok ex_a
+          /\ bw_interval toy_infl bs2 i2 [98] 0 50 = Ok ex_b
+      | _, _ => False end
+  | _, _ => False end.
+Proof. vm_compute. repeat split; try reflexivity. intros E; discriminate E. Qed.
